@@ -296,6 +296,39 @@ def check_pair(rec, ra, rb, table=None):
                      repr(exc))
 
 
+def check_pair_sheets(rec, ra, rb):
+    """the same algebra when only one operand (or none) names the sheet: the
+    result is the same whichever side carries the sheet name, and it is on
+    that sheet"""
+    u = A()
+    ia, ib = model_and(ra, rb), model_pow(ra, rb)
+    for sa, sb in (('', 'S'), ('S', ''), ('', '')):
+        case = dict(kind='pair-sheets', a=list(ra), b=list(rb), sa=sa, sb=sb)
+        rec.case(key=('pair-sheets', ra, rb, sa, sb), nontrivial=sa != sb,
+                 labels=('lattice-pair-sheets',), sample=case)
+        a, b = make(ra, sa), make(rb, sb)
+        try:
+            res = {'&': (a & b, b & a), '**': (a ** b, b ** a)}
+        except Exception as exc:
+            rec.fail(f'lattice:sheets:raises:{exc_key(exc)}', case, repr(exc))
+            continue
+        for op, (x, y) in res.items():
+            want = ia if op == '&' else ib
+            if x != y or (u.is_address(x) and u.is_address(y) and
+                          x.sheet != y.sheet):
+                rec.fail(f'lattice:sheets:commutative:{op}', case,
+                         f'{a!r} {op} {b!r} = {x!r} but swapped = {y!r}')
+            elif want is None:
+                if x != u.NULL_ERROR:
+                    rec.fail(f'lattice:sheets:value:{op}', case,
+                             f'{a!r} {op} {b!r} = {x!r}, expected #NULL!')
+            elif not u.is_address(x) or rect_of(x) != want or \
+                    x.sheet != (sa or sb):
+                rec.fail(f'lattice:sheets:value:{op}', case,
+                         f'{a!r} {op} {b!r} = {x!r}, expected {want} on '
+                         f'sheet {(sa or sb)!r}')
+
+
 def check_triple(rec, ra, rb, rc):
     u = A()
     a, b, c = make(ra), make(rb), make(rc)
@@ -395,6 +428,7 @@ def run_shard(shard, rec):
             check_enumeration(rec, r)
         for ra, rb in itertools.product(rects, repeat=2):
             check_pair(rec, ra, rb)
+            check_pair_sheets(rec, ra, rb)
         for ra, rb in itertools.product(rects[::7], repeat=2):
             check_sheets(rec, ra, rb)
         # the same grid anchored at the far corner of the sheet
@@ -484,6 +518,8 @@ def replay(case, rec):
         check_enumeration(rec, tuple(case['rect']), case.get('sheet', 'S'))
     elif kind == 'pair':
         check_pair(rec, tuple(case['a']), tuple(case['b']))
+    elif kind == 'pair-sheets':
+        check_pair_sheets(rec, tuple(case['a']), tuple(case['b']))
     elif kind == 'triple':
         check_triple(rec, tuple(case['a']), tuple(case['b']),
                      tuple(case['c']))
